@@ -25,6 +25,15 @@ GENERAL_TRUSTED = [
 ]
 
 
+TRANSLATOR_TRUSTED = (
+    'source-to-Gallina translator harness/pytrans.py (fail closed: any construct outside its subset breaks the tie) and the '
+    'meaning it assigns to Python/NumPy constructs, coq/theories/PyLib.v: Python ints as Z, floor/true division, np.arange, '
+    'np.concatenate, np.setdiff1d (sorted unique difference), np.floor(a/b) of ints as floor division, '
+    'int(np.ceil(np.sqrt(m))) as the exact integer ceiling of the square root (float exactness for the magnitudes that occur is '
+    'sampled, not proved), np.maximum/np.minimum as max/min of the NumOps order; for slices of larger functions: the backward '
+    'slice on the index vectors and the check that no statement outside the slice stores to or mutates a sliced name.')
+
+
 def load(pid):
     return importlib.import_module(f'props.{pid.lower()}')
 
@@ -69,6 +78,29 @@ def main(argv):
         notes['forbidden_tokens'] = hits
     if not proofs_ok:
         notes['proof_log'] = (build_log[-1500:] if not ok_build else '') + prop['log'][-1500:]
+    # 1b. source-generated definitions: translate, compile, tie to the model, property statements about them
+    tie = core.build_tie(pid) if ok_build else None
+    tie_fail = None
+    if tie is not None:
+        prop['theorems'] = prop['theorems'] + tie['theorems']
+        prop['obligations'] += tie['obligations']
+        prop['discharged'] += tie['discharged']
+        prop['closed_count'] += tie['closed_count']
+        for a in tie['assumptions']:
+            if a not in prop['assumptions']:
+                prop['assumptions'].append(a)
+        if tie.get('cmd'):
+            prop['cmd'] += ' ; ' + tie['cmd']
+        notes['translated_from_source'] = tie['functions']
+        if not tie['ok']:
+            proofs_ok = False
+            notes['tie_log'] = tie['log']
+            # search the implementation itself for an input on which the property clause behind the tie fails
+            try:
+                import pytrans_search
+                tie_fail = pytrans_search.search(pid)
+            except Exception as e:
+                notes['tie_search_error'] = f'{type(e).__name__}: {e}'[:300]
 
     # 2. cases -------------------------------------------------------------------------
     if replay:
@@ -160,12 +192,21 @@ def main(argv):
         path = core.write_replay(pid, payload)
         lines.append(f'VIOLATION property={pid} replay={path}')
         nviol = len(violations)
+    elif tie_fail:
+        payload = dict(property=pid, why=tie_fail['why'], failing_input=tie_fail['input'], observed=tie_fail['observed'],
+                       expected=tie_fail.get('expected'), call=tie_fail['call'],
+                       broken='tie between the source-generated definitions and the model: ' + notes.get('tie_log', '')[:1500],
+                       seed=seed, tier=tier)
+        path = core.write_replay(pid, payload)
+        lines.append(f'VIOLATION property={pid} replay={path}')
+        nviol = 1
     elif not proofs_ok or coq_err or notes.get('to_coq_errors') or notes.get('oracle_errors'):
         what = ('proof obligations' if not proofs_ok else 'correspondence evaluation' if coq_err
                 else 'harness (to_coq / oracle raised): ' + str((notes.get('to_coq_errors') or notes.get('oracle_errors'))[:3]))
         payload = dict(property=pid, broken=what,
-                       theorem_file=f'coq/properties/{pid}.v', forbidden=hits,
-                       log=notes.get('proof_log') or notes.get('coq_eval_error'), seed=seed, tier=tier)
+                       theorem_file=(f'coq/tie/Tie_{pid}.v / coq/tie/TieProp_{pid}.v (generated: coq/gen/Gen_{pid}.v)'
+                                     if notes.get('tie_log') else f'coq/properties/{pid}.v'), forbidden=hits,
+                       log=notes.get('proof_log') or notes.get('tie_log') or notes.get('coq_eval_error'), seed=seed, tier=tier)
         path = core.write_replay(pid, payload)
         lines.append(f'VIOLATION property={pid} replay={path} no-failing-input-found')
         nviol = 1
@@ -215,7 +256,9 @@ def main(argv):
         checker_cmd=prop['cmd'],
         trusted_base=(['Print Assumptions: ' + (', '.join(prop['assumptions']) or 'none besides')
                        + f" ({prop['closed_count']} theorems closed under the global context)"]
-                      + GENERAL_TRUSTED + list(getattr(mod, 'TRUSTED', []))),
+                      + GENERAL_TRUSTED + list(getattr(mod, 'TRUSTED', []))
+                      + ([TRANSLATOR_TRUSTED + ' Translated in this run: '
+                          + ', '.join(f['source'] for f in tie['functions'])] if tie is not None else [])),
         theorems=prop['theorems'],
         evaluations=len(cases), coq_evaluated=len(terms),
         distinct_nontrivial=len(distinct),
